@@ -123,8 +123,8 @@ def gen(rng):
         opts['maybe_placeholders'] = False
     if rng.random() < 0.4:
         opts['propagate_positions'] = True
-    if rng.random() < 0.15:
-        opts['g_regex_flags'] = 2           # re.I
+    if rng.random() < 0.2:
+        opts['g_regex_flags'] = rng.choice([2, 're:2', 're:2'])           # re.I as a plain int, or as the enum member callers write (workload.caller_spelling)
     if use_bytes:
         opts['use_bytes'] = True
     if rng.random() < 0.15:
